@@ -18,7 +18,7 @@ def _simple_envs(env):
 def _reference(e):
     """fresh copy of a simple environment holding only its boundary entries"""
     r = copy.copy(e)
-    for nm in ('clear_site_', 'update_env_', 'Heff0', 'Heff1', 'Heff2', 'measure', 'setup_'):
+    for nm in ('clear_site_', 'update_env_', 'Heff0', 'Heff1', 'Heff2', 'measure', 'setup_', 'enlarge_bond'):
         r.__dict__.pop(nm, None)        # run-time wrappers refer to the observed object: the reference must use the class methods
     N = e.N
     r.F = {k: v for k, v in e.F.items() if k in ((-1, 0), (N, N - 1))}
@@ -102,6 +102,7 @@ def _st(F, key, refF):
 class Trace:
     def __init__(self):
         self.ops = []          # (wire op, statuses, pC)
+        self.decisions = []    # results of env.enlarge_bond, in call order
         self.env = None
         self.psi = None
         self.snap = True
@@ -161,7 +162,9 @@ def instrument(tr, psi, env):
 
     def measure(orig, bd=(-1, 0)):
         r = orig(bd) if bd != (-1, 0) else orig(); tr.record([10]); return r
-    for nm, f in (('clear_site_', clear), ('update_env_', update), ('Heff0', heff0), ('Heff1', heff1), ('Heff2', heff2), ('measure', measure)):
+    def enlarge(orig, bd, opts_svd):
+        r = orig(bd, opts_svd); tr.decisions.append(bool(r)); return r
+    for nm, f in (('clear_site_', clear), ('update_env_', update), ('Heff0', heff0), ('Heff1', heff1), ('Heff2', heff2), ('measure', measure), ('enlarge_bond', enlarge)):
         _wrap(env, nm, f)
 
 
